@@ -723,15 +723,17 @@ theorem C17_pdf_index_row_major {α : Type} (gam : Bool) (xs ys ps : ℕ) (val :
 /-- Work arrays and wrappers: every work array is malloc'ed with as many entries as the loop filling it writes and the
     loop reading it reads, it is computed from the input array of that very extent (xx ↔ n, yy ↔ m), direct reads of
     xx / yy in the output loop use the matching loop variable, the Cython wrapper passes the pointers in order and
-    `params.size` as Nparams, and PDFs.py hands contiguous float arrays over. -/
+    `params.size` as Nparams, PDFs.py hands contiguous float arrays over, and `gamma_func` closes with the Lanczos and
+    reflection formulas literally. -/
 theorem C17_pdf_buffers :
     (∀ b ∈ c_ln_buffers ++ c_g_buffers, b.2.1 = b.2.2.1 ∧ b.2.2.1 = b.2.2.2.1 ∧ b.2.2.2.1 = b.2.2.2.2.2 ∧
       ((b.2.2.2.2.1 = "xx" ∧ b.2.1 = "n") ∨ (b.2.2.2.2.1 = "yy" ∧ b.2.1 = "m"))) ∧
     (∀ r ∈ c_ln_directReads ++ c_g_directReads, r = ("xx", "n") ∨ r = ("yy", "m")) ∧
     pyx_ln_pointersOk = true ∧ pyx_g_pointersOk = true ∧ py_ln_wrapperOk = true ∧ py_g_wrapperOk = true ∧
+    lanczosShapeOk = true ∧
     (∀ xs ys ps, pyx_ln_Nparams xs ys ps = ps ∧ pyx_g_Nparams xs ys ps = ps ∧
       pyx_ln_n xs ys ps = xs ∧ pyx_ln_m xs ys ps = ys ∧ pyx_g_n xs ys ps = xs ∧ pyx_g_m xs ys ps = ys) := by
-  refine ⟨by decide, by decide, by decide, by decide, by decide, by decide, fun _ _ _ => ⟨rfl, rfl, rfl, rfl, rfl, rfl⟩⟩
+  refine ⟨by decide, by decide, by decide, by decide, by decide, by decide, by decide, fun _ _ _ => ⟨rfl, rfl, rfl, rfl, rfl, rfl⟩⟩
 
 end pdfs
 
